@@ -59,6 +59,12 @@ Other constructs added to those of gen_core.py
       np.hypot(a, b): an ABSTRACT function, a parameter of the generated definitions (declared in FUNCS "abstract"; the
       theorem states what it needs of it: its values on the eight steps are the integer step lengths of the model),
       transform[k] (the coefficients as integers), abs(e), float constants with an integer value,
+      np.isnan(P) for a parameter P declared in FUNCS "ints" and np.isnan(A[r, c]) for an integer raster A (exactly this call
+      form: one positional argument that is a name or a subscript of a name, and whose translation has the type Z): the
+      constant false.  Justification: the model is about INTEGER observations and an integer nodata value (params "zg" / "Z"),
+      and np.isnan of an integer is False; the domain of the model has no NaN.  The value is not propagated: a local such as
+      `nan = np.isnan(nodata)` is let-bound (let nan := false in) and the tests that read it keep their shape (&&, ||, negb),
+      so the generated term changes when the source's test changes.  Any other use of np.isnan raises GenError.
       for get_edge: `assert S.shape == (3, 3)` for a parameter declared as a 3 x 3 array (holds by the declaration),
       np.where(S.ravel())[0], A[slice(r - 1, r + 2), slice(c - 1, c + 2)].ravel() (the 3 x 3 window around (r, c), row-major;
       exact for the windows inside the raster: NumPy clips a slice at the border), np.all(W[s]), range(0, n),
@@ -499,6 +505,13 @@ class HFn(gen_core.Fn):
                     and self.env.get(w.slice.id, (0, 0))[1] == "idx"):
                 fail(e, self.fn, "unsupported np.all")
             return f"(forallb (fun k_ => nth k_ {self.env[w.value.id][0]} false) {self.env[w.slice.id][0]})", "bool"
+        if is_np_call(e, ("isnan",)):
+            # the integer model has no NaN: exactly np.isnan(<name>) / np.isnan(<name>[..]) of an integer VALUE is the constant false
+            if len(e.args) != 1 or e.keywords or not (is_name(e.args[0]) or isinstance(e.args[0], ast.Subscript) and is_name(e.args[0].value)):
+                fail(e, self.fn, "unsupported np.isnan")
+            if is_name(e.args[0]) and e.args[0].id not in self.spec["ints"] or self.ex(e.args[0])[1] != "Z":
+                fail(e, self.fn, "np.isnan of a value that is not an integer of the model")
+            return "false", "bool"
         if is_np_call(e, ("hypot",)):
             if "hypot" not in self.spec["abstract"] or len(e.args) != 2 or e.keywords:
                 fail(e, self.fn, "unsupported np.hypot")
